@@ -373,6 +373,7 @@ func simC14ng(c *sim.Ctx) {
 		n = 12
 	}
 	var pkts []pkt
+	stats := map[int]*pcapgo.NgInterfaceStatistics{}
 	for i := 0; i < n; i++ {
 		if len(intfs) < nif && c.Chance(400) {
 			in := mkIntf(len(intfs))
@@ -381,6 +382,30 @@ func simC14ng(c *sim.Ctx) {
 			}
 			intfs = append(intfs, in)
 			c.Probe("interface_added_between_packets")
+		}
+		if c.Chance(120) {
+			// a decryption secrets block between packets must not disturb them
+			if err := w.WriteDecryptionSecretsBlock(pcapgo.DSB_SECRETS_TYPE_TLS, fillBytes(uint64(i+77), c.Draw(70))); err != nil {
+				c.Fail("roundtrip", "write-error", "WriteDecryptionSecretsBlock", "%v", err)
+			}
+			c.Probe("secrets_block_between_packets")
+		}
+		if c.Chance(120) {
+			ix := c.Draw(len(intfs))
+			if intfs[ix].TimestampOffset == 0 {
+				st := pcapgo.NgInterfaceStatistics{
+					LastUpdate:      time.Unix(int64(1_600_000_000+c.Draw(1000)), int64(c.Draw(1_000_000_000))).UTC(),
+					StartTime:       time.Unix(int64(1_500_000_000+c.Draw(1000)), 5).UTC(),
+					EndTime:         time.Unix(int64(1_600_000_000+c.Draw(1000)), 7).UTC(),
+					PacketsReceived: uint64(c.Draw(1 << 20)),
+					PacketsDropped:  uint64(c.Draw(1 << 10)),
+				}
+				if err := w.WriteInterfaceStats(ix, st); err != nil {
+					c.Fail("roundtrip", "write-error", "WriteInterfaceStats", "%v", err)
+				}
+				stats[ix] = &st
+				c.Probe("statistics_block_between_packets")
+			}
 		}
 		l := drawLen(c)
 		p := pkt{data: fillBytes(uint64(i*104729+l+1), l)}
@@ -504,6 +529,13 @@ func simC14ng(c *sim.Ctx) {
 				g, _ := r.Interface(i)
 				if g.Name != in.Name || g.Comment != in.Comment || g.Description != in.Description || g.Filter != in.Filter || g.OS != in.OS || g.LinkType != in.LinkType || g.SnapLength != in.SnapLength || g.TimestampOffset != in.TimestampOffset || g.TimestampResolution != 9 {
 					c.Fail(what, "interface-differs", "NgReader", "interface %d read %+v, written %+v", i, strip(g), strip(in))
+				}
+			}
+			for ix, st := range stats {
+				g, _ := r.Interface(ix)
+				gs := g.Statistics
+				if !gs.LastUpdate.Equal(st.LastUpdate) || !gs.StartTime.Equal(st.StartTime) || !gs.EndTime.Equal(st.EndTime) || gs.PacketsReceived != st.PacketsReceived || gs.PacketsDropped != st.PacketsDropped {
+					c.Fail(what, "statistics-differ", "NgReader", "interface %d statistics read %+v, written %+v", ix, gs, *st)
 				}
 			}
 			if r.SectionInfo() != opt.SectionInfo {
